@@ -3,6 +3,8 @@ import ColoVerif.Model.TetrisChecked
 import ColoVerif.Model.IncrNetChecked
 import ColoVerif.Model.DetPlaceChecked
 import ColoVerif.Model.Transp1d
+import ColoVerif.Model.TranspCostsChecked
+import ColoVerif.Model.Transp1dChecked
 import Driver.Common
 /-
 Driver for C07: replays the harness' operation streams through the CHECKED models.
@@ -34,6 +36,18 @@ Driver for C07: replays the harness' operation streams through the CHECKED model
   dswap a b / dinsert c r p             -> <op> ok (x row)* | <op> throw:runtime_error   (swapC / insertC)
   t1d <n> <m> u.. v.. s.. d..           -> t1d k0 k1 .. | t1d throw:runtime_error | fault indexOutOfRange
                                            Transportation1d(u, v, s, d).assign()   (Transp1d.assign)
+  t1dc <n> <m> u.. v.. s.. d..          -> t1dc k0 k1 .. | t1dc throw:runtime_error
+                                           Transportation1d pb(u, v, s, d); pb.balanceDemand(); pb.assign(); with every
+                                           `long long` operation typed  (Transp1d.balanceThenAssignC)
+  gd <model> <qf> <tx> <ty> <cx> <cy>   -> gd <m> <e>      the float `distance(tx - cx, ty - cy)` = m·2^e (m odd or 0), as
+                                           DensityLegalizer::allDistances / reoptimize evaluate it (binCellCostC);
+                                           arguments are the bit patterns of the `float`s
+  gt <model> <qf> <nb> <nc> caps.. dems.. (bx by)*nb (cx cy)*nc
+                                        -> gtcost <fixed-point costs, row-major> / gt k0 k1 .. | gt throw:runtime_error
+                                           reoptimize's transportation: float costs, costsFromIntegers, increaseCapacity,
+                                           solve, toAssignment  (reoptCostsC, reoptTransportC)
+  gi <nb> <nc> caps.. dems.. costs..    -> gi k0 k1 .. | gi throw:runtime_error     the same with the int-cost constructor
+                                           (intTransportC)
 
 Outside an `xcase` a fault is printed in place as `fault <site>` (the in-domain streams
 must never show one).
@@ -105,6 +119,34 @@ def detOp (d : DS) (op : String) (a : List Int) : DS × List String :=
       | .ok r => emit { d with ds := (r.toOption).orElse (fun _ => d.ds) } d.st (showDetState op s.nCells r)
       | .error f => fault d f
     | _, _ => (d, ["bad-op " ++ op])
+
+/-- the `float` with bit pattern `b`, as a rational (finite values only) -/
+def ratOfF32Bits (b : Nat) : Rat :=
+  let sign : Rat := if b / 2147483648 % 2 = 1 then -1 else 1
+  let ex := b / 8388608 % 256
+  let man := b % 8388608
+  if ex = 0 then sign * (man : Rat) * Legalize.pow2 (-149)
+  else sign * ((man + 8388608 : Nat) : Rat) * Legalize.pow2 ((ex : Int) - 150)
+
+/-- canonical text of a dyadic rational: `m e` with `q = m·2^e`, `m` odd (or `0 0`) -/
+partial def stripTwos (m : Int) (e : Int) : Int × Int :=
+  if m = 0 then (0, 0) else if m % 2 = 0 then stripTwos (m / 2) (e + 1) else (m, e)
+
+def showDyadic (q : Rat) : String :=
+  let (m, e) := stripTwos q.num (-(Nat.log2 q.den : Int))
+  toString m ++ " " ++ toString e
+
+def showOutcome (op : String) : Transp.Outcome → String
+  | .assignment a => op ++ String.join (a.map fun k => " " ++ toString k)
+  | .throwRuntimeError => op ++ " throw:runtime_error"
+
+def pairsOf : List Rat → List (Rat × Rat)
+  | a :: b :: rest => (a, b) :: pairsOf rest
+  | _ => []
+
+def chunks (n : Nat) : Nat → List Int → List (List Int)
+  | 0, _ => []
+  | k + 1, l => l.take n :: chunks n k (l.drop n)
 
 def step (d : DS) : List String → DS × List String
   | ["variant", v] => ({ d with asr := v != "ndebug" }, [])
@@ -181,6 +223,54 @@ def step (d : DS) : List String → DS × List String
     | .error .indexOutOfRange => fault d (.indexOutOfRange "Transportation1d")
     | .error .divByZero => fault d (.divByZero "Transportation1d")
     | .error .outOfFuel => fault d (.assertFailed "Transportation1d: model fuel exhausted")
+  | "t1dc" :: n :: m :: rest =>
+    if d.faulted then (d, []) else
+    let xs := rest.map fun x => int! x
+    let n := (int! n).toNat
+    let m := (int! m).toNat
+    match Transp1d.balanceThenAssignC ⟨xs.take n, (xs.drop n).take m, (xs.drop (n + m)).take n, (xs.drop (n + m + n)).take m⟩ with
+    | .ok (.ok a) => emit d d.st ("t1dc" ++ String.join (a.map fun k => " " ++ toString k))
+    | .ok (.error .invalid) => emit d d.st "t1dc throw:runtime_error"
+    | .ok (.error .indexOutOfRange) => fault d (.indexOutOfRange "Transportation1d")
+    | .ok (.error .divByZero) => fault d (.divByZero "Transportation1d")
+    | .ok (.error .outOfFuel) => fault d (.assertFailed "Transportation1d: model fuel exhausted")
+    | .error f => fault d f
+  | ["gd", m, qf, tx, ty, cx, cy] =>
+    if d.faulted then (d, []) else
+    let r := fun (w : String) => ratOfF32Bits (int! w).toNat
+    match Transp.binCellCostC (Transp.CostModel.ofCode (int! m).toNat) (r qf) (r tx) (r ty) (r cx) (r cy) with
+    | .ok v => emit d d.st ("gd " ++ showDyadic v)
+    | .error f => fault d f
+  | "gt" :: m :: qf :: nb :: nc :: rest =>
+    if d.faulted then (d, []) else
+    let nb := (int! nb).toNat
+    let nc := (int! nc).toNat
+    let caps := (rest.take nb).map fun x => int! x
+    let dems := ((rest.drop nb).take nc).map fun x => int! x
+    let fl := (rest.drop (nb + nc)).map fun w => ratOfF32Bits (int! w).toNat
+    let bins := pairsOf (fl.take (2 * nb))
+    let cells := pairsOf ((fl.drop (2 * nb)).take (2 * nc))
+    match Transp.reoptCostsC (Transp.CostModel.ofCode (int! m).toNat) (ratOfF32Bits (int! qf).toNat) bins cells with
+    | .error f => fault d f
+    | .ok fc =>
+      match Transp.costsFromIntegersC fc with
+      | .error f => fault d f
+      | .ok costs =>
+        match Transp.reoptTransportC d.asr caps dems fc with
+        | .error f => fault d f
+        | .ok .throwRuntimeError => emit d d.st "gt throw:runtime_error"
+        | .ok o =>
+          let (d1, l1) := emit d d.st ("gtcost " ++ showInts costs.flatten).trimAscii.toString
+          let (d2, l2) := emit d1 d1.st (showOutcome "gt" o)
+          (d2, l1 ++ l2)
+  | "gi" :: nb :: nc :: rest =>
+    if d.faulted then (d, []) else
+    let nb := (int! nb).toNat
+    let nc := (int! nc).toNat
+    let xs := rest.map fun x => int! x
+    match Transp.intTransportC d.asr (xs.take nb) ((xs.drop nb).take nc) (chunks nc nb (xs.drop (nb + nc))) with
+    | .ok o => emit d d.st (showOutcome "gi" o)
+    | .error f => fault d f
   | ["dnew"] => ({ d with drows := [], dcells := [], ds := none }, [])
   | ["drow", a, b, c, e, o] =>
     ({ d with drows := d.drows ++ [⟨⟨int! a, int! b, int! c, int! e⟩, Orient.ofCode (int! o).toNat⟩] }, [])
